@@ -836,6 +836,19 @@ func (o *Oracle) onFSMHandoff(f *SimFSM, e Ent) {
 			}
 		}
 	}
+	if e.Index > f.lastHandled && o.tainted != "" {
+		// after an operator override the committed history is no reference any more, but a server's own log still
+		// is: what its FSM is handed next after index k (an applied entry or a restored snapshot) is the next entry
+		// of its own log that an FSM is given at all
+		d := inc.node.disk
+		for i := f.lastHandled + 1; i < e.Index; i++ {
+			if l, ok := d.ent(i); ok && o.fsmSees(l.Type) {
+				v := w.violate("C02", "C02/entry-skipped", "%s: FSM handed index %d right after %d but its own log holds a %v entry at %d", inc.tag, e.Index, f.lastHandled, l.Type, i)
+				v.Facts["judged_by_own_log_only"] = "true"
+				break
+			}
+		}
+	}
 	if e.Index > f.lastHandled {
 		f.lastHandled = e.Index
 	}
